@@ -17,7 +17,7 @@ CHECKS = {
             "hand model Decoder tied by T3; GenOk facts come from the regenerated tables", "5 C10"),
     "C11": ("Lean theorems over the decoder model: a claim changes only its own address's identity, only claims change the source map, every returned message carries the source map's identity for its source right after the step, manufacturer exclude/include lists (unknown code passes no include list), discovery window, and no leak for every history; + history correspondence + identity monitor on the real decoder",
             "hand model tied by T3; the 10-minute window is a Boolean input", "5 C11"),
-    "C12": ("Lean theorems: framing is a function of the concatenated stream, not of the reads (Reader.feed13 / feedLines chunking independence and exactness; Serial.feed via C20_chunking) and the receive queue delivers FIFO, each message once, whatever the callback does; correspondence: the byte strings the four real clients take off a real StreamReader under every segmentation class vs the framing models, queue events vs the queue machine, callback log vs a reference decoder",
+    "C12": ("Lean theorems: framing is a function of the concatenated stream, not of the reads (Reader.feed13 / feedLines chunking independence and exactness; with the StreamReader's line limit: the code-shaped readuntil/overrun loop refines a byte-at-a-time automaton, so every segmentation yields exactly the stream's lines of at most `limit` bytes; Serial.feed via C20_chunking) and the receive queue delivers FIFO, each message once, whatever the callback does; correspondence: the byte strings the four real clients take off a real StreamReader under every segmentation class vs the framing models, queue events vs the queue machine, callback log vs a reference decoder",
             "PARTIAL w.r.t. the runtime: real TCP segmentation and asyncio internals are represented only through the real StreamReader object and the stated assumption (readexactly/readline consume the concatenation)", "5 C12, 2.9"),
     "C13": ("Lean theorems over the client LTS, for every accepted event list: back-off formula (growing, capped at 10 s, never zero), retry delay = back-off of the attempt number, at most one live receive task at every point of every trace, recovery for every k (refused k times then accepted ends CONNECTED, reported once, receive task on the new link), DISCONNECTED only after a fault and only once, no non-progressing receive iteration; trace validation of the four real clients under virtual time with faults injected at every step",
             "PARTIAL w.r.t. the runtime: LTS at the granularity of externally observable events, tied by trace validation; blocking inside a task step is outside the model (a wall-clock alarm turns a non-yielding spin into an observation)", "5 C13, 2.9"),
@@ -27,12 +27,12 @@ CHECKS = {
             "PARTIAL w.r.t. the runtime as C13", "5 C19, 2.9"),
     "C15": ("Lean theorems over the JSON data model of to_json/from_json: header and addressing survive, fields keep id and the JSON view of value/raw (binary as hex, dates/times as ISO text), plain values are exact, what each encoder kind reads of a field is preserved (so the parsed message re-encodes to the same bytes), and the dump log is exactly the matching returned messages in order for every history; correspondence: the model's tree vs json.loads(msg.to_json()) for messages of every definition, dump counts in histories; monitors: from_json(to_json(m)) re-encodes identically, dump file content",
             "PARTIAL: orjson's text layer is a trusted parameter; NaN/inf -> null is a recorded known finding", "5 C15"),
-    "C16": ("Lean theorems over the decoder model: a single-frame probe's result depends only on configuration, input and source identity; ignored/rejected input leaves reassembly table and source map untouched; fast frames touch only their own stream; a complete fast-packet message with a fresh counter decodes, after ANY history, to what its pre-assembled payload decodes to (also the frame-wise = pre-assembled clause of C07); isolation between live instances is VALIDATED by multi-instance correspondence",
+    "C16": ("Lean theorems over the decoder model: a single-frame probe's result depends only on configuration, input and source identity; ignored/rejected input leaves reassembly table and source map untouched; fast frames touch only their own stream; a complete fast-packet message with a fresh counter decodes, after ANY history, to what its pre-assembled payload decodes to (also the frame-wise = pre-assembled clause of C07); whole histories: what is returned never depends on the dump log, any set of rejected or ignored inputs can be removed from ANY history without changing the result at any remaining position (C16_garbage_removal, by induction over the history), the same history decodes twice to the same results; isolation between live instances is VALIDATED by multi-instance correspondence",
             "isolation proper rests on T3 (several real decoders/encoders alive, each compared with its own model instance), not on a theorem", "5 C16"),
     "C17": ("Lean theorems over Dec.hashKey: key = id and primary-key raws only (congruence), unit preferences and everything else irrelevant, no hash with mapping off, key injective for underscore-free ids and integer keys; kernel-checked database facts (no id contains '_', primary-key kinds) and the C01 tables pinning the primary-key flags; correspondence hashes the model's key with hashlib and compares digests",
             "PARTIAL: MD5 collision-freedom is not a theorem (named gap); four trailing STRING_LAU station-id keys are outside the injectivity theorem", "5 C17"),
-    "C18": ("Lean theorems over Dec.applyUnits: frame rule (only value and unit change; raw, metadata, order, message attributes untouched), untouched without a recognised preference, absent stays absent, case-insensitive matching, decoding with preferences = conversion of decoding without, bar exact, Celsius accuracy bound; database fact: all convertible quantities are NUMBER fields; correspondence of the six conversion functions over the quantity fields' ranges",
-            "conversion arithmetic modelled as rationals + round-to-nearest-even, tied by T3; accuracy bounds are proved for Celsius and bar only, the others rest on the monitor", "5 C18"),
+    "C18": ("Lean theorems over Dec.applyUnits: frame rule (only value and unit change; raw, metadata, order, message attributes untouched), untouched without a recognised preference, absent stays absent, case-insensitive matching, decoding with preferences = conversion of decoding without, bar exact, accuracy bounds against the exact rational result for Celsius, Fahrenheit, psi, degrees and knots over the whole range the fields can carry (error analysis of every binary64 rounding over Q); database fact: all convertible quantities are NUMBER fields; correspondence of the six conversion functions over the quantity fields' ranges",
+            "conversion arithmetic modelled as rationals + round-to-nearest-even, tied by T3; the accuracy bounds are about the Rat+rne model of CPython's float arithmetic and round(), which the unit-conversions correspondence ties to the real functions bit for bit", "5 C18"),
     "C03": ("Lean 4 theorems over the hand model Fast (frames well-formed, counter advance, in-order round trip from any admissible stream state, consecutive messages) + exhaustive correspondence of the model with _encode_fast_message/_decode_fast_message over all 224 lengths x 8 counters",
             "hand model tied by T3 differential runs; the per-PGN decode step is replaced by a payload capture", "2.2, 5 C03"),
     "C04": ("Lean 4 theorems: stream independence of the keyed table for every interleaving (C04_interleaving), exactness within a message under any permutation/duplication/loss of later frames incl. padding (C04_exact), clean restart after loss (C04_after_segment); correspondence on enumerated and random multi-stream histories",
